@@ -25,12 +25,24 @@ def load_rules(prop: str):
     return importlib.import_module(f"tsa.rules.{prop}")
 
 
+def note_missing(ctx: Optional[Ctx], e: AnalysisError):
+    """A resolved function without the statement an obligation is about: recorded as a violation."""
+    if ctx is not None and getattr(e, "missing", ""):
+        ctx.bad(f"{e.rule}.present", e.site, e.missing, found="not found", required="the construct that realises the obligation is present")
+        e.missing = ""
+
+
 def run_rules(prop: str, tier: str, overrides: Optional[dict] = None) -> Ctx:
     mod = load_rules(prop)
     extra = tuple(getattr(mod, "EXTRA_DIRS_THOROUGH", ())) if tier == "thorough" else ()
     repo = Repo(REPO, overrides=overrides, extra_dirs=extra)
     ctx = Ctx(prop, tier, repo)
-    mod.check(ctx)
+    try:
+        mod.check(ctx)
+    except AnalysisError as e:
+        note_missing(ctx, e)
+        e.ctx = ctx  # type: ignore[attr-defined]
+        raise
     return ctx
 
 
@@ -39,6 +51,11 @@ def outcome(prop: str, tier: str, overrides: Optional[dict] = None) -> tuple[str
     try:
         ctx = run_rules(prop, tier, overrides)
     except AnalysisError as e:
+        c = getattr(e, "ctx", None)
+        kf = load_known_findings()
+        fresh = [o for o in (c.violations if c is not None else []) if is_known(kf, prop, o) is None]
+        if fresh:  # violations established before the analysis had to stop (same as the driver's ANALYSIS-INCOMPLETE)
+            return "violation", [f"{o.rule} {o.site} {o.construct}" for o in fresh]
         return "error", [str(e)]
     except Exception as e:  # noqa: BLE001
         return "error", [f"{type(e).__name__}: {e}"]
@@ -124,6 +141,7 @@ def main(argv: list[str]) -> int:
             if hasattr(mod, "thorough"):
                 mod.thorough(ctx)
     except AnalysisError as e:
+        note_missing(ctx, e)
         kf0 = load_known_findings()
         fresh = [o for o in (ctx.violations if ctx is not None else []) if not is_known(kf0, prop, o)]
         if fresh:
